@@ -114,6 +114,9 @@ fn request(src: &str) -> String {
         // the theorems' only assumption on the supplied tables (`TableOk`): a line feed is not an
         // identifier character
         assert!(!(c == '\n' && f != 0), "TableOk violated by the unicode-xid tables");
+        // `WidthOk` (hypothesis of the column theorems in Props/C09Cols): printable ASCII has
+        // display width 1 in the unicode-width tables; nothing is assumed about other characters
+        assert!(!((0x20..0x7f).contains(&(c as u32)) && w != 1), "WidthOk violated by the unicode-width tables");
         let mut g = src[i..].graphemes(true);
         let g1 = g.next().map(|x| x.len()).unwrap_or(0);
         let g2 = g.next().map(|x| x.len()).unwrap_or(0);
